@@ -58,10 +58,15 @@ def pat_match(fn, n, pat):
         return any(pat_match(fn, n, p) for p in pat.split("|"))
     kind, _, name = pat.partition(":")
     seen = set()
+    noexpand = kind.startswith("d_")       # d_field:, d_var: ... = no expansion of locals
+    if noexpand:
+        kind = kind[2:]
 
     def nodes(x, depth=0):
         for y in ex.walk(x):
             yield y
+            if noexpand:
+                continue
             if y.get("k") == "var" and y.get("s") == "l" and depth < 3:
                 d = single_def(fn, y.get("id"))
                 if d is not None and id(d) not in seen:
